@@ -150,7 +150,17 @@ def run_check(prop: str, tier: str, seed: int) -> int:
     except core.DriverError as e:
         infra_error = f'driver: {e}'
     except Exception as e:
-        infra_error = f'{type(e).__name__}: {e}'
+        tb = traceback.extract_tb(e.__traceback__)
+        in_repo = [fr for fr in tb if str(fr.filename).startswith(str(core.SRC.resolve())) or str(fr.filename).startswith(str(core.SRC))]
+        if in_repo:
+            # an exception out of the implementation that no oracle of the property module anticipated:
+            # the property is no longer shown to hold on an input the generators reached
+            fr = in_repo[-1]
+            out.spec_fail(dict(op='uncaught_implementation_exception', exc=type(e).__name__),
+                          f'implementation raised {type(e).__name__} at {Path(fr.filename).name}:{fr.lineno} ({fr.name}) on a generated input',
+                          ''.join(traceback.format_exception(type(e), e, e.__traceback__))[-3000:])
+        else:
+            infra_error = f'{type(e).__name__}: {e}'
         traceback.print_exc()
     finally:
         if driver: driver.close()
